@@ -166,6 +166,16 @@ theorem retry_exhausted_keeps_status_partial (e : GoErr) (c : Nat) (h : fromErro
     fromError (retryExhausted e) = some c := by
   simpa [retryExhausted, fromError, findStatus] using h
 
+/-- When the deadline expires or the application cancels during the retry backoff sleep, the error
+    `shouldRetry` returns — which RecvMsg / SendMsg / Invoke hand to the application unconverted — is a
+    status: DEADLINE_EXCEEDED(4) resp. CANCELED(1). -/
+theorem retry_backoff_ctx_done_is_status :
+    retryBackoffCtxDone .ctxDeadline = .status 4 ∧ retryBackoffCtxDone .ctxCanceled = .status 1 ∧
+    (∀ e, e ≠ .nil → carriesStatus (retryBackoffCtxDone e) = true) := by
+  refine ⟨rfl, rfl, ?_⟩
+  intro e he
+  cases e <;> first | exact absurd rfl he | rfl
+
 /-- Per-RPC credential errors always reach the application as a status (both sites). -/
 theorem creds_error_is_status (site : CredsSite) (e : GoErr) : carriesStatus (credsErr site e) = true :=
   (filters_yield_status e true site).2
